@@ -833,6 +833,96 @@ pub fn conflict_gadget(rng: &mut Rng) -> (World, Vec<ProblemSpec>) {
 }
 
 
+/// Cyclic conflict family: packages C_0 .. C_{k-1} (k = 2..4) whose candidates require the next package of the cycle,
+/// so that the requirement edges of an unsatisfiable core form a cycle; what makes the problem unsatisfiable is that
+/// the members of the cycle pin a further package D to different candidates (or constrain each other away, or need a
+/// package without candidates). Every package of the cycle has 1..3 candidates with *identical* dependencies
+/// (interchangeable builds, which the conflict report merges), the root enters the cycle through a single requirement
+/// or through a union over several cycle packages, and optionally a satisfiable escape exists.
+pub fn cyclic_conflict(rng: &mut Rng) -> (World, ProblemSpec) {
+    let mut w = World::default();
+    let mut next_s = 0u32;
+    let mut next_vs = 0u32;
+    let mut next_union = 0u32;
+    let k = rng.range(2, 4) as u32;
+    let d_name = k;
+    let dead_name = k + 1;
+    let mut pkg = |w: &mut World, rng: &mut Rng, name: u32, n: usize| -> Vec<u32> {
+        let c: Vec<u32> = (next_s..next_s + n as u32).collect();
+        next_s += n as u32;
+        for x in &c {
+            w.solvables.insert(*x, Solvable { name, deps: Deps::Known { requirements: vec![], constrains: vec![] } });
+        }
+        let mut rank = c.clone();
+        rng.shuffle(&mut rank);
+        w.packages.insert(name, Package { candidates: c.clone(), rank, favored: None, locked: None, excluded: vec![], hint: if rng.chance(1, 4) { Hint::All } else { Hint::None }, missing: false });
+        c
+    };
+    let mut vs = |w: &mut World, name: u32, mut m: Vec<u32>| -> u32 {
+        m.sort();
+        let id = next_vs;
+        next_vs += 1;
+        w.version_sets.insert(id, VersionSet { name, matches: m });
+        id
+    };
+    let cyc: Vec<Vec<u32>> = (0..k).map(|n| { let m = rng.range(1, 3); pkg(&mut w, rng, n, m) }).collect();
+    let d = pkg(&mut w, rng, d_name, k as usize);
+    pkg(&mut w, rng, dead_name, 0);
+    let mode = rng.below(3);
+    let twins = rng.chance(3, 4);
+    for n in 0..k {
+        let next = (n + 1) % k;
+        let any_next = vs(&mut w, next, cyc[next as usize].clone());
+        let mut base_reqs = vec![Req::Single(any_next)];
+        let mut base_cons = vec![];
+        match mode {
+            0 => base_reqs.push(Req::Single(vs(&mut w, d_name, vec![d[n as usize]]))),
+            1 => {
+                // every member needs D (any) but constrains D to its own candidate
+                base_reqs.push(Req::Single(vs(&mut w, d_name, d.clone())));
+                base_cons.push(vs(&mut w, d_name, vec![d[n as usize]]));
+            }
+            _ => {
+                // only the last member of the cycle is broken: it needs a package without candidates
+                if n == k - 1 {
+                    base_reqs.push(Req::Single(vs(&mut w, dead_name, vec![])));
+                }
+            }
+        }
+        if rng.chance(1, 2) {
+            base_reqs.reverse();
+        }
+        for (i, c) in cyc[n as usize].iter().enumerate() {
+            let mut reqs = base_reqs.clone();
+            if !twins && i > 0 {
+                // not interchangeable: an extra harmless requirement on D
+                reqs.push(Req::Single(vs(&mut w, d_name, d.clone())));
+            }
+            w.solvables.get_mut(c).unwrap().deps = Deps::Known { requirements: reqs, constrains: base_cons.clone() };
+        }
+    }
+    // entry
+    let mut requirements = Vec::new();
+    if rng.chance(1, 2) {
+        let mut members: Vec<u32> = Vec::new();
+        let m = rng.range(2, k as usize);
+        let mut names: Vec<u32> = (0..k).collect();
+        rng.shuffle(&mut names);
+        for n in names.into_iter().take(m) {
+            members.push(vs(&mut w, n, cyc[n as usize].clone()));
+        }
+        let id = next_union;
+        next_union += 1;
+        w.unions.insert(id, members);
+        requirements.push(Req::Union(id));
+    } else {
+        let n = rng.below(k as usize) as u32;
+        requirements.push(Req::Single(vs(&mut w, n, cyc[n as usize].clone())));
+    }
+    let _ = next_union;
+    (w, ProblemSpec { requirements, constraints: vec![], soft: vec![] })
+}
+
 /// Wide fan-out family: a solvable (the root, or a single solvable the root requires) with `width` requirements on
 /// distinct packages (futures combinators and request budgets change behaviour beyond a few dozen members), plus
 /// optionally one package with many hinted candidates and a union with many members.
